@@ -230,12 +230,13 @@ def Tok.isPro : Tok → Bool | .pro _ _ => true | _ => false
 /-! ## reflexivity -/
 
 /-- `Terminal.isReflexive` inside a clause whose S / root carries `typ` (every verb of the fragment reaches it
-    through its parent chain). `pat = None` + `refl` is the `TypeError` of `"réfl" not in pat`. -/
+    through its parent chain). `pat = None` + `refl`: not reflexive when the test is guarded (`Gen.reflGuardsNoPat`, lifted
+    from Terminal.py each run), else the `TypeError` of `"réfl" not in pat`. -/
 def isReflexive (v : VT) (refl : Bool) : Except Crash Bool :=
   if v.pat = some [reflStr] then .ok true
   else if refl then
     match v.pat with
-    | none => .error .typeError
+    | none => if reflGuardsNoPat then .ok false else .error .typeError
     | some pat => .ok (pat.contains reflStr)
   else .ok false
 
